@@ -343,6 +343,18 @@ def run(ck):
             cj = [c for c in p.calls if c[0].endswith("cplx.conjugate")]
             ok = len(kc) == 2 and len(cj) == 1 and argp(kc[0][5], 0) is argp(kc[1][5], 0) and cj[0][7].get("x") == kc[0][6] and argp(kc[1][7], 1) == cj[0][6]
             ck.check(bool(ok), "C04.R4", "rotate_rho = U (U rho)^dagger", rr.site(), "rotate_rho is not sweep -> conjugate transpose -> sweep with the same unitaries")
+    # ------------------------------------------------------------------ R5 history independence (two-call protocol)
+    from .history import check_history
+
+    for fname, cls, arg in (("rotate_psi", "ComplexWaveFunction", "space"), ("rotate_psi_inner_prod", "ComplexWaveFunction", "states"),
+                            ("rotate_rho", "DensityMatrix", "space"), ("rotate_rho_probs", "DensityMatrix", "states")):
+        fn_ = prog.func(U, fname)
+
+        def mk(it, cls=cls, arg=arg):
+            return (make_state(it, cls), api.basis_str(it), tens(it, arg, ("N" if arg == "space" else "B", "nv")))
+
+        check_history(ck, "C04.R5", fname + "/" + cls, fn_.site(), mk, lambda it, c, fn_=fn_: it.call_function(VFunc(fn_), [c[0], c[1], c[2]], {}, None), max_paths=40)
+    ck.require_min("C04.R5", 4)
     ck.require_min("C04.R1", 12)
     ck.require_min("C04.R2", 10)
     ck.require_min("C04.R3", 6)
